@@ -755,7 +755,7 @@ package raft
 //@   requires futures_distinct: forall a int, b int :: 0 <= a && a < b && b < len(applyLogs) ==> applyLogs[a] != applyLogs[b]
 //@   requires index_range: r.lastLogIndex + len(applyLogs) < MaxInt63 && r.lastSnapshotIndex + len(applyLogs) < MaxInt63
 //@   modifies r.lastLogIndex, r.lastLogTerm, r.state, r.leaderAddr, r.leaderID, r.logs.has, r.logs.ent, r.logs.first, r.logs.last,
-//@            r.leaderState.commitment.commitIndex, r.leaderState.commitment.matchIndexes[*], allof("H.Log."), allof("H.logFuture."), allof("H.list."), allof("CH."), allof("E.PLog.")
+//@            r.leaderState.commitment.commitIndex, r.leaderState.commitment.matchIndexes[*], allof("H.Log."), allof("H.logFuture."), allof("H.list."), allof("CH.sent."), allof("CH.last."), allof("CH.closed"), allof("CH.cap"), allof("E.PLog.")
 //@   ensures  appends_at_tail_in_own_term: forall k int :: 0 <= k && k < len(applyLogs) ==>
 //@              applyLogs[k].log.Index == old(lastEntryIndex(r)) + 1 + k && applyLogs[k].log.Term == r.currentTerm
 //@   ensures  failure_steps_down: len(applyLogs) > 0 && r.lastLogIndex == old(r.lastLogIndex) ==> r.state == Follower
@@ -1006,6 +1006,16 @@ package raft
 //@              r.commitIndex >= r.leaderState.commitment.startIndex && r.leaderState.leadershipTransferInProgress != 1
 //@   at call (*Raft).dispatchLogs#1 assert not_while_transferring_or_stepping_down: r.leaderState.leadershipTransferInProgress != 1 && !stepDown
 //@   at call time.After#2 assert lease_check_interval_floor: arg0 >= minCheckInterval
+//@   loop 1 step restore_answered: received(r.userRestoreCh) != old(received(r.userRestoreCh)) ==> answered(lastreceived(r.userRestoreCh).deferError)
+//@   loop 1 step configurations_answered: received(r.configurationsCh) != old(received(r.configurationsCh)) ==> answered(lastreceived(r.configurationsCh).deferError)
+//@   loop 1 step bootstrap_answered: received(r.bootstrapCh) != old(received(r.bootstrapCh)) ==> answered(lastreceived(r.bootstrapCh).deferError)
+//@   loop 1 step lease_timer_rearmed_after_it_fired: received(prev(lease)) != old(received(prev(lease))) ==> lease != prev(lease) && lease != nil
+
+// time.After hands out a new channel on every call (assumed, trusted base)
+//@ extern time.After(d)
+//@   modifies nothing
+//@   fresh result0
+//@   ensures  new_timer: result != nil
 
 // ---------------------------------------------------------------------------
 // C17 (sliver): a future that an API call leaves on a queue carries the shutdown escape, so that a
